@@ -583,3 +583,10 @@ Lemma orderly_shutdown_refuted_l :
     In (ASetState Running) log /\ st_pc s = PDone DStopped /\ st_phase s = Closed /\
     count is_sender_panic log = 1.
 Proof. exists refute_oracle, panic_history. vm_compute. tauto. Qed.
+
+Lemma initial_failure_closed_l o ls :
+  st_pc (fst (run o init ls)) = PDone DInitFail -> st_phase (fst (run o init ls)) = Closed.
+Proof.
+  destruct (run o init ls) as [s log] eqn:E. destruct (run_inv o ls s log E) as [C _]. simpl.
+  intros EP. rewrite (C_phase _ _ C), EP. reflexivity.
+Qed.
